@@ -771,6 +771,17 @@ theorem minKey_spec (ix : Idx) (h : Inv ix) (k : Nat) :
         unfold pre suf mk at *
         omega
 
+/-- every key of an index that satisfies `Inv` is an 8-byte id -/
+theorem get_lt (ix : Idx) (h : Inv ix) (m : Nat) (hm : FsIndex.get ix m ≠ none) : m < 2 ^ 64 := by
+  unfold FsIndex.get at hm
+  cases hg : alGet (pre m) ix with
+  | none => rw [hg] at hm; exact absurd rfl hm
+  | some b =>
+    have hp := (h.2 _ (alGet_mem hg)).1
+    simp only [pre] at hp
+    omega
+
+
 theorem minKey_refines (ix : Idx) (h : Inv ix) (k : Nat) (_hk : k < 2 ^ 64) :
     (∀ m, minKey ix (some k) = .ok m ↔
       (get ix m ≠ none ∧ k ≤ m ∧ ∀ m', get ix m' ≠ none → k ≤ m' → m ≤ m')) ∧
